@@ -87,3 +87,4 @@ func vfSameObject(a, b []byte) bool {
 }
 func vfOverlap(a, b []byte) bool { return false }
 func vfOffsetOf(a []byte) int    { return -1 }
+func vfPrune() { panic("VFREPLAY: pruned shape case") }
